@@ -105,4 +105,14 @@ PROPS = {
                 "oracle: differential against the single-period MPD at the same instant + byte equality of first/last segment per period",
         "assumptions": ["start time and startNumber stay at their defaults (the property's quantifier)", "the must-reject clause is applied to assets with constant video segment duration"],
     },
+    "C12": {
+        "parts": [{"pkg": "livesim", "test": "TestVerifC12", "gen": True}],
+        "clauses": ["C12.a", "C12.b", "C12.c", "C12.d", "C12.e"],
+        "level": "model_checking",
+        "rule": "assets with whole-second, half-second and 2.002 s segment grids x cue duration {1,100,500,900,999,1000,1001,1500,1800,2000,3000} ms x region {0,1} x {stpp,wvtt} x "
+                "{Number, Timeline-Number, Timeline-Time} x start {0,900,1.7e9} x languages alternating x every segment over the cycle after which (segment start mod 1 s) repeats (capped 8/100 loops); "
+                "reference: one cue per UTC second intersecting the segment",
+        "assumptions": ["a clipped first cue may count its duration from the start of the UTC second or from its own begin",
+                        "ms conversion of non-integral video times may round either way"],
+    },
 }
